@@ -241,7 +241,8 @@ func propC16(o *out, r *rng, thorough bool) {
 	for _, qt := range []string{"SHOW TAG VALUES FROM cpu WITH KEY IN (region, host); SHOW TAG VALUES FROM mem WITH KEY IN (dc, rack)",
 		"SHOW TAG VALUES WITH KEY IN (a, b, c); SHOW TAG VALUES WITH KEY IN (d); SHOW TAG VALUES WITH KEY IN (e, f)",
 		"CREATE SUBSCRIPTION s1 ON db.rp DESTINATIONS ALL 'udp://a:9001', 'udp://b:9002'; CREATE SUBSCRIPTION s2 ON db.rp DESTINATIONS ANY 'udp://c:9003'",
-		"SELECT f(a, b, c) FROM m; SELECT g(d) FROM n", "SELECT a, b FROM m, n GROUP BY x, y; SELECT c FROM o GROUP BY z"} {
+		"SELECT f(a, b, c) FROM m; SELECT g(d) FROM n", "SELECT mean(v) FROM m GROUP BY time(1h, -15m); SELECT mean(v) FROM m GROUP BY time(15m)", "SELECT v FROM m WHERE time > -30s; SELECT mean(v) FROM m GROUP BY time(30s); SELECT -30s FROM m",
+		"SELECT a + b * c FROM m WHERE x = 1 OR y = 2 AND z = 3; SELECT d - e FROM m WHERE p = 1; SELECT g % h FROM m WHERE q = 2", "SELECT -a, -(b + c) FROM m; SELECT -d FROM n; SELECT e * -f FROM o", "SELECT a, b FROM m, n GROUP BY x, y; SELECT c FROM o GROUP BY z"} {
 		o.checked()
 		o.count("same-kind")
 		q, err := influxql.ParseQuery(qt)
@@ -255,6 +256,35 @@ func propC16(o *out, r *rng, thorough bool) {
 			if err != nil || i >= len(q.Statements) || stmtSexp(alone) != stmtSexp(q.Statements[i]) {
 				o.fail("", fmt.Sprintf("statement %d of ParseQuery(%q) differs from parsing it alone", i, qt), rp)
 				break
+			}
+		}
+	}
+	// a block comment whose closing star is the 4096th byte of the text and whose closing slash the 4097th (and the
+	// neighbouring alignments): the end of a comment is found wherever the reader's buffer happens to end
+	for _, base := range []string{"SELECT x FROM m WHERE y = 1", "SELECT mean(v) FROM a, b GROUP BY time(1m), h LIMIT 3", "SHOW TAG KEYS ON db FROM m WHERE x = 'a'"} {
+		want, err := influxql.ParseStatement(base)
+		if err != nil {
+			continue
+		}
+		for i := 0; i < len(base); i++ {
+			if base[i] != ' ' {
+				continue
+			}
+			for _, seam := range []int{4096, 8192} {
+				for off := -2; off <= 2; off++ {
+					pad := seam + off - 1 - (i + 3)
+					text := base[:i] + " /*" + strings.Repeat("c", pad) + "*/ " + base[i+1:]
+					o.count("comment-at-seam")
+					o.checked()
+					got, err := influxql.ParseStatement(text)
+					if err != nil && strings.Contains(err.Error(), "regex") {
+						continue // the known findings about comments where a regular expression may start
+					}
+					if err != nil || stmtSexp(got) != stmtSexp(want) {
+						o.fail("", fmt.Sprintf("%q with a %d-byte block comment in the gap at %d (closing at byte %d): %v", base, pad+4, i, seam+off, err),
+							map[string]interface{}{"op": "comment_seam", "text": base, "gap": i, "pad": pad})
+					}
+				}
 			}
 		}
 	}
